@@ -116,6 +116,7 @@ func malformedSuites() []string {
 
 func c15(r *ev.Run) {
 	r.Scenario("suite-fidelity", func(raw []byte) (string, string) { return suiteFidelity(unjson[c15Case](raw)) })
+	r.Scenario("registry-stable", func(raw []byte) (string, string) { return registryStable() })
 	if ReplayOnly {
 		return
 	}
@@ -153,7 +154,7 @@ func c15(r *ev.Run) {
 	gs := grammarStrings(r.Thorough())
 	r.Set("grammar_strings", len(gs))
 	var accepted, rejected int64
-	chunks := 64
+	chunks := 1 // sequential on purpose: the registry is package-level state; concurrent use is C11's subject
 	ev.Par(chunks, func(k int) {
 		var local, acc, rej int64
 		for i := k; i < len(gs); i += chunks {
@@ -184,6 +185,15 @@ func c15(r *ev.Run) {
 		r.Add("grammar_rejected", rej)
 		_, _ = accepted, rejected
 	})
+	// the advertised list must not move while strings are being parsed
+	if obs, bad := registryStable(); bad != "" {
+		r.Fail("registry-stable", bad, c15Case{"", "registry"}, "ListSuites / IsKnownSuite / SuiteConfigFromRaws unaffected by parsing", obs)
+	}
+	after := otp.ListSuites()
+	sort.Strings(after)
+	if strings.Join(after, ",") != strings.Join(names, ",") {
+		r.Fail("registry-stable", "advertised list changed during the run", c15Case{"", "registry"}, fmt.Sprint(len(names), " names"), fmt.Sprint(len(after), " names"))
+	}
 	// (3) malformed strings
 	verdicts := map[string]string{}
 	for _, m := range malformedSuites() {
@@ -203,4 +213,28 @@ func c15(r *ev.Run) {
 	r.Sample(map[string]any{"case": c15Case{"OCRA-12:HOTP-SHA1-6:QN08", "malformed"}, "want": "rejected"})
 	r.Rule("all advertised names, every string of the RFC 6287 naming grammar (digits 0..11, all field combinations, boundary time values; thorough: every time value 1..59S/M, 1..48H) and a list of malformed classes through NewRawSuite/IsKnownSuite/SuiteConfigFromRaws vs an independent parser of the naming scheme; accepted => configuration and name equal what the string says; distinct = distinct accepted configurations + malformed classes")
 	r.Assume("a bare 'S' and a unit-less 'T<n>' (both used by the library's own registry) are read as 'session included' and 'n seconds'")
+}
+
+var registryProbe int
+
+// registryStable parses a never-seen-before (unregistered) suite string and checks that the
+// advertised list, the known-suite test and lookup by name are what they were before.
+func registryStable() (obs, bad string) {
+	registryProbe++
+	name := fmt.Sprintf("OCRA-1:HOTP-SHA256-7:QN10-T%dS", 1000+registryProbe)
+	before := otp.ListSuites()
+	knownBefore := otp.IsKnownSuite(name)
+	_, err := otp.NewRawSuite(name)
+	after := otp.ListSuites()
+	obs = fmt.Sprint(len(before), "->", len(after), " known:", knownBefore, "->", otp.IsKnownSuite(name), " err:", err != nil)
+	if len(after) != len(before) {
+		return obs, fmt.Sprintf("instantiating %s changed the advertised list from %d to %d names", name, len(before), len(after))
+	}
+	if otp.IsKnownSuite(name) != knownBefore {
+		return obs, "instantiating " + name + " changed the known-suite test for it"
+	}
+	if otp.SuiteConfigFromRaws(name) != (otp.SuiteConfig{}) {
+		return obs, "lookup by name of the unregistered " + name + " is not the zero configuration"
+	}
+	return obs, ""
 }
